@@ -113,6 +113,10 @@ def run(rep):
     from harness.props import _headers
 
     _headers.part(rep, PROP)
+    # type-cell level: TypeCell.tla (the begin/end/select/osm grammar with every alias spelling) against the real converter
+    from harness.props import _typecell
+
+    _typecell.part(rep, PROP)
 
 
 def replay(rep, case):
@@ -121,6 +125,10 @@ def replay(rep, case):
         from harness.props import _headers
 
         return _headers.replay(rep, PROP, c)
+    if c.get("typecell"):
+        from harness.props import _typecell
+
+        return _typecell.replay(rep, PROP, c)
     o = _run({"case": c["case"], "fmt": c.get("fmt", "xlsx"), "seed": c.get("seed", 0)})
     acc, info = tlc.validate_traces("Trace_Layout", corpus._cfg("Trace_Layout.cfg", TRACE_CFG), [o["trace"]], shards=1, tag="replay")
     rep.traces_validated += len(acc)
